@@ -142,6 +142,9 @@ def run_case(case):
     fails = []
     evals = 0
     nontriv = 0
+    # one character-set object per name is REUSED across the patterns of this case (a
+    # multi-step history): a builder that modifies or remembers its argument shows up here
+    shared = {cname: set(cs) for cname, cs in CHARSETS.items()}
     for pat in case["patterns"]:
         try:
             rx = re.compile(pat, re.ASCII)
@@ -152,7 +155,10 @@ def run_case(case):
                 continue
             inp0 = {"pattern": pat, "charset": cname}
             try:
-                m = interegular_to_wfsa(pat, charset=set(cs))
+                m = interegular_to_wfsa(pat, charset=shared[cname])
+                if shared[cname] != set(cs):
+                    fails.append(_fail("building an automaton leaves the caller's character set unchanged", dict(inp0, earlier_patterns=case["patterns"][: case["patterns"].index(pat)]), sorted(shared[cname]), sorted(cs)))
+                    shared[cname] = set(cs)
             except CaseTimeout:
                 raise
             except Exception as e:  # noqa: BLE001
